@@ -2294,6 +2294,8 @@ pub fn coset_table(
         // relators and subgroup generators are words in the nr_gens generators and their inverses (anything else indexes outside a table row)
         all_within(relators@, nr_gens as int), all_within(subgroup_gens@, nr_gens as int),
     ensures result.wf(), result.nr_gens == nr_gens, result.table@.len() >= 1,
+        // the documented row limit: the enumeration aborts (panics) before the table exceeds it
+        result.table@.len() <= 100_000,
         forall|x: int| #[trigger] result.part.rep(x) == x,
         // C11: "every generator acts on the rows as a permutation whose inverse is the action of the inverse generator": every entry is
         // defined and is a row of the table, and the inverse generator leads back
@@ -2331,12 +2333,12 @@ pub fn coset_table(
     let mut __i: usize = 0;
     loop
         invariant_except_break __i <= table.table@.len(),
-        invariant rows_ok(&table), table.nr_gens == nr_gens,
+        invariant rows_ok(&table), table.nr_gens == nr_gens && table.table@.len() <= 100_000,
             all_within(subgroup_gens@, nr_gens as int),
             forall|u: FreeWord| #[trigger] rels@.contains(u) ==> within(u@, nr_gens as int),
             forall|k: int| 0 <= k < __i && #[trigger] canonical(&table, k) ==> row_complete(&table, k),
             kinv(&table, Seq::<(int, int)>::empty()), tinv(&table, Seq::<(int, int)>::empty()), uall(&table, rels@, subgroup_gens@),
-        ensures rows_ok(&table), table.nr_gens == nr_gens, all_complete(&table), kinv(&table, Seq::<(int, int)>::empty()), tinv(&table, Seq::<(int, int)>::empty()), uall(&table, rels@, subgroup_gens@),
+        ensures rows_ok(&table), table.nr_gens == nr_gens && table.table@.len() <= 100_000, all_complete(&table), kinv(&table, Seq::<(int, int)>::empty()), tinv(&table, Seq::<(int, int)>::empty()), uall(&table, rels@, subgroup_gens@),
     {
         let i = __i; __i += 1;
         if i >= table.len() {
@@ -2354,7 +2356,7 @@ pub fn coset_table(
             }
         }
         while __gk < __gens.len()
-            invariant rows_ok(&table), table.nr_gens == nr_gens, i < table.table@.len(),
+            invariant rows_ok(&table), table.nr_gens == nr_gens && table.table@.len() <= 100_000, i < table.table@.len(),
                 all_within(subgroup_gens@, nr_gens as int),
                 forall|u: FreeWord| #[trigger] rels@.contains(u) ==> within(u@, nr_gens as int),
                 __gens@.len() == 2 * nr_gens, __gk <= __gens@.len(),
@@ -2362,7 +2364,7 @@ pub fn coset_table(
                 forall|g2: int| #[trigger] table.gen_ok(g2) ==> 0 <= gen_index(&table, g2) < __gens@.len() && __gens@[gen_index(&table, g2)] == g2,
                 prog(&table, i as int, __gens@, __gk as int),
                 kinv(&table, Seq::<(int, int)>::empty()), tinv(&table, Seq::<(int, int)>::empty()), uall(&table, rels@, subgroup_gens@),
-            ensures rows_ok(&table), table.nr_gens == nr_gens, i < table.table@.len(), kinv(&table, Seq::<(int, int)>::empty()), tinv(&table, Seq::<(int, int)>::empty()), uall(&table, rels@, subgroup_gens@),
+            ensures rows_ok(&table), table.nr_gens == nr_gens && table.table@.len() <= 100_000, i < table.table@.len(), kinv(&table, Seq::<(int, int)>::empty()), tinv(&table, Seq::<(int, int)>::empty()), uall(&table, rels@, subgroup_gens@),
                 forall|k: int| 0 <= k < i && #[trigger] canonical(&table, k) ==> row_complete(&table, k),
                 canonical(&table, i as int) ==> row_complete(&table, i as int),
         {
@@ -2402,7 +2404,7 @@ pub fn coset_table(
                 // edge deduced while doing so
                 let mut deduced = vec![(i, g)];
                 while let Some((r, h)) = deduced.pop()
-                    invariant rows_ok(&table), table.nr_gens == nr_gens, i < table.table@.len(),
+                    invariant rows_ok(&table), table.nr_gens == nr_gens && table.table@.len() <= 100_000, i < table.table@.len(),
                         all_within(subgroup_gens@, nr_gens as int),
                         forall|u: FreeWord| #[trigger] rels@.contains(u) ==> within(u@, nr_gens as int),
                         forall|k: int| 0 <= k < deduced@.len() ==> (#[trigger] deduced@[k]).0 < table.table@.len(),
@@ -2412,7 +2414,7 @@ pub fn coset_table(
                         kinv(&table, Seq::<(int, int)>::empty()), tinv(&table, Seq::<(int, int)>::empty()), uall(&table, rels@, subgroup_gens@),
                 {
                     for w in it: __set_items(&rels)
-                        invariant rows_ok(&table), table.nr_gens == nr_gens, i < table.table@.len(), r < table.table@.len(),
+                        invariant rows_ok(&table), table.nr_gens == nr_gens && table.table@.len() <= 100_000, i < table.table@.len(), r < table.table@.len(),
                             forall|u: FreeWord| #[trigger] rels@.contains(u) ==> within(u@, nr_gens as int),
                             forall|j: int| 0 <= j < it.seq().len() ==> rels@.contains(*#[trigger] it.seq()[j]),
                             forall|k: int| 0 <= k < deduced@.len() ==> (#[trigger] deduced@[k]).0 < table.table@.len(),
@@ -2437,7 +2439,7 @@ pub fn coset_table(
                         }
                     }
                     for w in it: subgroup_gens
-                        invariant rows_ok(&table), table.nr_gens == nr_gens, i < table.table@.len(),
+                        invariant rows_ok(&table), table.nr_gens == nr_gens && table.table@.len() <= 100_000, i < table.table@.len(),
                             all_within(subgroup_gens@, nr_gens as int),
                             it.seq().len() == subgroup_gens@.len(),
                             forall|m: int| 0 <= m < subgroup_gens@.len() ==> *(#[trigger] it.seq()[m]) == subgroup_gens@[m],
@@ -2487,24 +2489,24 @@ pub fn coset_table(
     // that was not discovered).  Check every relator at every live row and
     // merge until the table is consistent.
     loop
-        invariant_except_break rows_ok(&table), table.nr_gens == nr_gens, all_complete(&table), kinv(&table, Seq::<(int, int)>::empty()), tinv(&table, Seq::<(int, int)>::empty()), uall(&table, rels@, subgroup_gens@),
+        invariant_except_break rows_ok(&table), table.nr_gens == nr_gens && table.table@.len() <= 100_000, all_complete(&table), kinv(&table, Seq::<(int, int)>::empty()), tinv(&table, Seq::<(int, int)>::empty()), uall(&table, rels@, subgroup_gens@),
             all_within(subgroup_gens@, nr_gens as int),
             forall|u: FreeWord| #[trigger] rels@.contains(u) ==> within(u@, nr_gens as int),
-        ensures rows_ok(&table), table.nr_gens == nr_gens, all_complete(&table), kinv(&table, Seq::<(int, int)>::empty()), tinv(&table, Seq::<(int, int)>::empty()), uall(&table, rels@, subgroup_gens@),
+        ensures rows_ok(&table), table.nr_gens == nr_gens && table.table@.len() <= 100_000, all_complete(&table), kinv(&table, Seq::<(int, int)>::empty()), tinv(&table, Seq::<(int, int)>::empty()), uall(&table, rels@, subgroup_gens@),
             // the last pass found every due word closing at every row, and changed nothing
             pass_done(&table, rels@, subgroup_gens@, table.table@.len() as int),
     {
         let mut changed = false;
 
         for i in iti: 0..table.len()
-            invariant rows_ok(&table), table.nr_gens == nr_gens, all_complete(&table), kinv(&table, Seq::<(int, int)>::empty()), tinv(&table, Seq::<(int, int)>::empty()), uall(&table, rels@, subgroup_gens@),
+            invariant rows_ok(&table), table.nr_gens == nr_gens && table.table@.len() <= 100_000, all_complete(&table), kinv(&table, Seq::<(int, int)>::empty()), tinv(&table, Seq::<(int, int)>::empty()), uall(&table, rels@, subgroup_gens@),
                 iti.seq().len() == table.table@.len(),
                 all_within(subgroup_gens@, nr_gens as int),
                 forall|u: FreeWord| #[trigger] rels@.contains(u) ==> within(u@, nr_gens as int),
                 !changed ==> pass_done(&table, rels@, subgroup_gens@, i as int),
         {
             for w in it: __words_at(&rels, subgroup_gens, i)
-                invariant rows_ok(&table), table.nr_gens == nr_gens, all_complete(&table), kinv(&table, Seq::<(int, int)>::empty()), tinv(&table, Seq::<(int, int)>::empty()), uall(&table, rels@, subgroup_gens@), i < table.table@.len(), iti.seq().len() == table.table@.len(),
+                invariant rows_ok(&table), table.nr_gens == nr_gens && table.table@.len() <= 100_000, all_complete(&table), kinv(&table, Seq::<(int, int)>::empty()), tinv(&table, Seq::<(int, int)>::empty()), uall(&table, rels@, subgroup_gens@), i < table.table@.len(), iti.seq().len() == table.table@.len(),
                     all_within(subgroup_gens@, nr_gens as int),
                     forall|u: FreeWord| #[trigger] rels@.contains(u) ==> within(u@, nr_gens as int),
                     forall|j: int| 0 <= j < it.seq().len() ==> rels@.contains(*#[trigger] it.seq()[j]) || (i == 0 && is_sub(subgroup_gens@, *it.seq()[j])),
